@@ -989,12 +989,23 @@ func init() {
 			a.Policy = &spolicy{EagerSpawn: true, FastNotify: true}
 			return a
 		}
+		// one realtime client holds two datatypes and issues an operation on each, one right after the other; the other client
+		// holds both and only listens
+		rt2k := e2sched{E2: e2p{Clients: 2, Type: "counter", Keys: []string{"k1", "k2"}, Prefix: "joined", SyncType: "realtime", Tolerant: true},
+			Conc:  []pact{{Op: "seq", R: 0, Sub: []pact{{Op: "inc", R: 0, P: 1, T: "k1|"}, {Op: "inc", R: 0, P: 1, T: "k2|"}}}},
+			AtEnd: []string{"announced", "quiescent", "log", "converge", "reference"}, NoClose: true}
+		// a datatype key that contains the separator of the notification topic
+		rtSlash := e2sched{E2: e2p{Clients: 2, Type: "counter", Keys: []string{"a/b"}, Prefix: "joined", SyncType: "realtime", Tolerant: true},
+			Conc:  []pact{{Op: "inc", R: 0, P: 1, T: "a/b|"}, {Op: "inc", R: 1, P: 1, T: "a/b|"}},
+			AtEnd: []string{"announced", "quiescent", "log", "converge", "reference"}, NoClose: true}
 		if tier == "quick" {
+			p.Runs = append(p.Runs, schedRun("realtime-two-datatypes-one-client-b1", 1, rt2k, 0), schedRun("realtime-key-with-slash-b1", 1, rtSlash, 0))
 			p.Runs = append(p.Runs, schedRun("realtime-counter-2ops-listener-b2", 2, rt2("counter"), 0))
 			p.Runs = append(p.Runs, schedRun("realtime-counter-2ops-eager-spawn-b2", 2, rt2e("counter"), 0))
 			p.Runs = append(p.Runs, schedRun("realtime-counter-slow-listener-b1", 1, rtl("counter"), 0))
 			p.Runs = append(p.Runs, schedRun("realtime-counter-2-b2", 2, rt(2, "counter", false), 0), schedRun("realtime-list-2-b1", 1, rt(2, "list", true), 0))
 		} else {
+			p.Runs = append(p.Runs, schedRun("realtime-two-datatypes-one-client-b2", 2, rt2k, 0), schedRun("realtime-key-with-slash-b2", 2, rtSlash, 0))
 			p.Runs = append(p.Runs, schedRun("realtime-counter-slow-listener-b2", 2, rtl("counter"), 0), schedRun("realtime-list-slow-listener-b1", 1, rtl("list"), 0))
 			p.Runs = append(p.Runs, schedRun("realtime-counter-2-b3", 3, rt(2, "counter", true), 0), schedRun("realtime-list-2-b2", 2, rt(2, "list", true), 0), schedRun("realtime-counter-3-b2", 2, rt(3, "counter", false), 0))
 			p.Runs = append(p.Runs, schedRun("realtime-counter-2ops-listener-b2", 2, rt2("counter"), 0), schedRun("realtime-counter-2ops-eager-spawn-b2", 2, rt2e("counter"), 0),
